@@ -46,6 +46,7 @@ func (a *fifoMap[T]) Lock(key T) {
 	}
 	m.ilen++
 	a.lock.Unlock()
+	verifPoint("fifomap.lock.counted", "key", key)
 
 	m.mutex.Lock()
 }
@@ -58,5 +59,6 @@ func (a *fifoMap[T]) Unlock(key T) {
 		delete(a.items, key)
 	}
 	a.lock.Unlock()
+	verifPoint("fifomap.unlock.counted", "key", key)
 	m.mutex.Unlock()
 }
